@@ -300,6 +300,10 @@ def gen_assert(r, clients, counter, regen_biased=False):
               'ref': 'p%d.parquet' % i, 'frame': frame,
               'ref0': [copy.deepcopy(frame) if r.chance(0.5)
                        else gen_frame(r)]}
+        if r.chance(0.35):
+            # the on-disk variant: actual is a parquet file
+            op['op'] = 'assert_df_file'
+            op['actual_parquet'] = 'act%d.parquet' % i
     # does a reference exist beforehand?
     op['ref_exists'] = r.chance(0.8)
     return op
@@ -357,7 +361,7 @@ def gen_c15(r, tier):
     counter = [0]
     for _ in range(r.weighted([(3, 1), (3, 2), (2, 3), (1, 4)])):
         op = gen_assert(r, clients, counter)
-        while op['op'] == 'assert_df':
+        while op['op'] in ('assert_df', 'assert_df_file'):
             op = gen_assert(r, clients, counter)
         if 'opts' in op and r.chance(0.5):
             # make exclusions likely on failing pairs
@@ -728,12 +732,17 @@ def prepare_assert(ctx, op):
                 continue        # left by an earlier op: keep history
             if op['op'] == 'assert_binary':
                 raw_write(p, data=bytes.fromhex(content))
-            elif op['op'] == 'assert_df':
+            elif op['op'] in ('assert_df', 'assert_df_file'):
                 os.makedirs(os.path.dirname(p), exist_ok=True)
                 build_frame(content).to_parquet(p)
             else:
                 raw_write(p, text=content)
     apaths = []
+    if op['op'] == 'assert_df_file':
+        p = W.path('data', op['actual_parquet'])
+        os.makedirs(os.path.dirname(p), exist_ok=True)
+        build_frame(op['frame']).to_parquet(p)
+        apaths.append(p)
     for af in op.get('actual_files', []):
         p = W.path('data', af['name'])
         if 'hex' in af:
@@ -768,6 +777,8 @@ def call_assert(ctx, op, rpaths, apaths):
         elif op['op'] == 'assert_df':
             inst.assertDataFrameCorrect(build_frame(op['frame']), refs[0],
                                         kind=k)
+        elif op['op'] == 'assert_df_file':
+            inst.assertOnDiskDataFrameCorrect(apaths[0], refs[0], kind=k)
         return 'pass', None
     except WatchdogTimeout:
         raise
@@ -861,7 +872,7 @@ def run_assert(ctx, op):
 def content_tag(op):
     if op['op'] == 'assert_binary':
         return 'binary'
-    if op['op'] == 'assert_df':
+    if op['op'] in ('assert_df', 'assert_df_file'):
         return 'df-' + '+'.join(sorted({c['type'] for c in op['frame']}))
     texts = [op['actual']] if 'actual' in op else [
         af['text'] for af in op['actual_files']]
@@ -936,7 +947,7 @@ def check_c10(ctx, op, mode, outcome, exc, delta, log, fired, rpaths, apaths,
         regenerated = True
     if not (regenerated and outcome == 'pass' and op.get('recheck')):
         return
-    if op['op'] == 'assert_df':
+    if op['op'] in ('assert_df', 'assert_df_file'):
         ok = roundtrippable(W)
         if not all(ok.get(c['type']) for c in op['frame']):
             ctx.stats['abstain']['df_dtype_not_parquet_roundtrippable'] += 1
